@@ -367,6 +367,9 @@ Section Coherence.
     - right. rewrite <- Eo. apply existsb_exists. exists u. rewrite Eu, Hk. auto.
   Qed.
 
+  Lemma flat_not_nested it : flat_ok d others it = true -> nested_first_write d it = false.
+  Proof. destruct it; cbn [nested_first_write flat_ok]; try reflexivity. discriminate. Qed.
+
   Lemma flat_has_out_none it : flat_ok d others it = true -> item_flags d it = None ->
     item_has_out d it = false.
   Proof.
@@ -383,7 +386,7 @@ Section Coherence.
     induction l as [|it r IH]; intros seen dirty s s' Hflat Hinv Hdirty R.
     - exists seen. destruct dirty; [specialize (Hdirty eq_refl); discriminate|exact R].
     - cbn [forallb] in Hflat. apply andb_true_iff in Hflat as [Hit Hr].
-      cbn [ins_list]. rewrite orb_false_r.
+      cbn [ins_list]. rewrite orb_false_r, (flat_not_nested it Hit), andb_false_r. cbn [app].
       change (exec_list trips (it :: r) s) with (exec_list trips r (exec_item trips it s)).
       cbn [has_out existsb] in Hdirty. fold (has_out d r) in Hdirty.
       destruct (item_flags d it) as [[i o]|] eqn:Ef.
